@@ -23,7 +23,8 @@ RULE = ("flow cases: population (1-30 taxa, 1-24 markers, ploidy 1/2/4, taxon na
         "sub-selection of it, new taxa of another size and allele frequency, or 600-4000 taxa stored pool after pool with pool-specific allele frequencies; interleaved with phenotype() and re-assignment of var_err / gpmod; "
         "every call judged for the population passed in that call), rng Generator/RandomState/global) x phenotype-frame variant "
         "(as returned, rows shuffled, index reset, unbalanced after row deletion, renamed + junk columns, trait subset/reversed) x "
-        "genotype matrix for alignment (None, same, permuted, subset, with never-phenotyped taxa, only unphenotyped, phased or "
+        "genotype matrix for alignment (None, same, permuted, subset, with never-phenotyped taxa, only unphenotyped, single candidate, parent "
+        "lists and cohorts with taxa listed more than once - every occurrence must carry that taxon's mean -, phased or "
         "unphased, own group labels, taxa-grouped); every small trial, and a second trial on the same protocol object after re-assigning "
         "nenv/nrep/variances, is judged trait by trait: zero-variance strata vanish, positive-variance strata carry distinct effects.  "
         "stat cases (half of them ONE large trial, half 300-2500 independent trials of 1-3 environments x 1-2 replicates run on one long-lived "
@@ -326,11 +327,13 @@ def gen_gtobj(g, pg, phen_labels):
     if pg.taxa is None:
         return "no genotype matrix", None
     k = ["no genotype matrix", "same matrix", "permuted", "permuted subset", "with unphenotyped taxa", "with unphenotyped taxa",
-         "only unphenotyped taxa", "only unphenotyped taxa", "single candidate"][int(g.integers(9))]
+         "only unphenotyped taxa", "only unphenotyped taxa", "single candidate", "parent list with repeats"][int(g.integers(10))]
     if k == "no genotype matrix":
         return k, None
     if k == "same matrix":
         return k, pg
+    if k == "parent list with repeats":      # e.g. pgmat.select_taxa([2, 0, 7, 2, 5, 0]): every occurrence is a row of its own
+        return k, pg.select_taxa(g.integers(0, pg.ntaxa, int(g.integers(2, 9))))
     own = [key_of(t) for t in pg.taxa]
     isint = isinstance(own[0], int)
     if k == "single candidate":       # one taxon: a phenotyped one or a new one
@@ -345,6 +348,10 @@ def gen_gtobj(g, pg, phen_labels):
         base = [] if k == "only unphenotyped taxa" else [own[i] for i in g.permutation(len(own))[: int(g.integers(1, len(own) + 1))]]
         lab = base + extra
         lab = [lab[i] for i in g.permutation(len(lab))]
+    if k != "single candidate" and g.random() < 0.3:      # some taxa (phenotyped or not) listed more than once
+        lab = lab + [lab[int(i)] for i in g.integers(0, len(lab), int(g.integers(1, 4)))]
+        lab = [lab[i] for i in g.permutation(len(lab))]
+        k += " + repeated taxa"
     m = len(lab)
     grp = None if g.random() < 0.25 else g.integers(10, 14, m).astype("int64")        # the matrix' own groups (differ from the frame's)
     taxa = numpy.array(lab, dtype=object)
@@ -673,7 +680,7 @@ def case_flow(ctx, c):
     gcls = "no genotype matrix" if gt is None else "genotype matrix supplied"
     wit = {"frame": fr.head(40).to_dict("list"), "frame rows": len(fr), "taxa_col": tc, "taxa_grp_col": gc, "trait_cols": tr, "variant": vname,
            "gtobj taxa": None if gt is None else gt.taxa, "gtobj groups": None if gt is None else gt.taxa_grp}
-    ctx.case("estimate:%s | %s" % (vname, gname.split("/")[0]), c, vname, gname, ecls, trivial=(n < 2))
+    ctx.case("estimate:%s | %s" % (vname, gname.split("/")[0].split(" + ")[0]), c, vname, gname, ecls, trivial=(n < 2))
     ctx.sumnote("estimate cases with %s" % ecls)
     ctx.sumnote("estimate cases aligned to an unphased matrix", int(gname.endswith("/unphased")))
     bvp = MeanPhenotypicBreedingValue(tc, gc, tr if (len(tr) > 1 or g.random() < 0.5) else tr[0])
@@ -684,6 +691,7 @@ def case_flow(ctx, c):
         cohort = "cohort %s phenotyped" % ("not at all" if nph == 0 else ("fully" if nph == gt.ntaxa else "partly"))
     ctx.sumnote("estimate cases with %s" % cohort)
     ctx.sumnote("estimate cases with a single candidate", int(gt is not None and gt.ntaxa == 1))
+    ctx.sumnote("estimate cases with a taxon repeated in the genotype matrix", int(gt is not None and len(set(key_of(t) for t in gt.taxa)) < gt.ntaxa))
     try:
         bv = bvp.estimate(fr, gt)
     except Exception as e:
